@@ -3,6 +3,7 @@
 -/
 import Tranp.Model.Quotation
 import Tranp.Model.Hull
+import Tranp.Lemmas.AstPath.StrCodec
 
 namespace Tranp.Quote
 open Tranp Tranp.Lark
@@ -95,6 +96,20 @@ theorem readlines_split (c : Str) (i : Nat) (hi : i < (readlines c).length) :
           | succ j =>
             have := ih (j + 1) (by simpa using hi)
             simpa using this
+
+/-- splitting `d.join(xs) + d + b` on `d` gives the pieces `xs` and then the pieces of `b` -/
+theorem splitOn_join_append (d : Char) (xs : List Str) (b : Str) (hne : xs ≠ []) (h : ∀ x ∈ xs, d ∉ x) :
+    Str.splitOn d (Str.join [d] xs ++ d :: b) = xs ++ Str.splitOn d b := by
+  induction xs with
+  | nil => exact absurd rfl hne
+  | cons x rest ih =>
+    cases rest with
+    | nil => simp [Str.join, StrCodec.splitOn_append_cons d x b (h x (by simp))]
+    | cons y ys =>
+      rw [StrCodec.join_cons_cons, List.append_assoc, List.append_assoc]
+      simp only [List.singleton_append]
+      rw [StrCodec.splitOn_append_cons d x _ (h x (by simp)), ih (by simp) (fun z hz => h z (by simp [hz]))]
+      simp
 
 end Tranp.Quote
 
@@ -234,5 +249,120 @@ theorem chain_prefix (M B : List TSpan) (h : Chain (M ++ B)) : Chain M := by
 
 theorem chain_infix (A M B : List TSpan) (h : Chain (A ++ (M ++ B))) : Chain M :=
   chain_prefix M B (chain_suffix A _ h)
+
+/-! ### positions from the text, trees as token intervals -/
+
+theorem le_advance (p : P) (c : Char) : p ≤ advance p c := by
+  unfold advance
+  split
+  · show p.line < p.line + 1 ∨ _; omega
+  · show p.line < p.line ∨ (p.line = p.line ∧ p.col ≤ p.col + 1); omega
+
+theorem le_posFrom (p : P) (s : Str) (n : Nat) : p ≤ posFrom p s n := by
+  induction s generalizing p n with
+  | nil => cases n <;> exact P.le_refl p
+  | cons c cs ih =>
+    cases n with
+    | zero => exact P.le_refl p
+    | succ n => exact P.le_trans (le_advance p c) (ih (advance p c) n)
+
+theorem posFrom_mono (p : P) (s : Str) (a b : Nat) (h : a ≤ b) : posFrom p s a ≤ posFrom p s b := by
+  induction s generalizing p a b with
+  | nil => cases a <;> cases b <;> exact P.le_refl p
+  | cons c cs ih =>
+    cases a with
+    | zero => exact le_posFrom p (c :: cs) b
+    | succ a =>
+      cases b with
+      | zero => omega
+      | succ b => exact ih (advance p c) a b (by omega)
+
+/-- positions computed from the text are monotone in the offset -/
+theorem posOf_mono (src : Str) (a b : Nat) (h : a ≤ b) : posOf src a ≤ posOf src b := posFrom_mono _ src a b h
+
+/-- tokens handed out left to right have ordered, non-overlapping spans -/
+theorem chain_of_offChain (src : Str) (ts : List OTok) (h : OffChain ts) : Chain (ts.map (tokSpan src)) := by
+  induction ts with
+  | nil => trivial
+  | cons a rest ih =>
+    cases rest with
+    | nil => exact posOf_mono src _ _ h
+    | cons b rest' =>
+      obtain ⟨h1, h2, h3⟩ := h
+      exact ⟨posOf_mono src _ _ h1, posOf_mono src _ _ h2, ih h3⟩
+
+theorem chain_get_lt (S : List TSpan) (h : Chain S) (i j : Nat) (hi : i < S.length) (hj : j < S.length) (hij : i < j) :
+    S[i].b ≤ S[i].e ∧ S[i].e ≤ S[j].b ∧ S[j].b ≤ S[j].e :=
+  (List.pairwise_iff_getElem.mp (chain_pairwise S h)) i j hi hj hij
+
+theorem chain_get_le_b (S : List TSpan) (h : Chain S) (i j : Nat) (hi : i < S.length) (hj : j < S.length) (hij : i ≤ j) :
+    S[i].b ≤ S[j].b := by
+  rcases Nat.lt_or_eq_of_le hij with hlt | heq
+  · have := chain_get_lt S h i j hi hj hlt
+    exact P.le_trans this.1 this.2.1
+  · subst heq; exact P.le_refl _
+
+theorem chain_get_le_e (S : List TSpan) (h : Chain S) (i j : Nat) (hi : i < S.length) (hj : j < S.length) (hij : i ≤ j) :
+    S[i].e ≤ S[j].e := by
+  rcases Nat.lt_or_eq_of_le hij with hlt | heq
+  · have := chain_get_lt S h i j hi hj hlt
+    exact P.le_trans this.2.1 this.2.2
+  · subst heq; exact P.le_refl _
+
+theorem spanOf_some (S : List TSpan) (lo hi : Nat) (h1 : lo < hi) (h2 : hi ≤ S.length) :
+    spanOf S lo hi = some ⟨(S[lo]'(by omega)).b, (S[hi - 1]'(by omega)).e⟩ := by
+  have a : S[lo]? = some (S[lo]'(by omega)) := List.getElem?_eq_getElem (by omega)
+  have b : S[hi - 1]? = some (S[hi - 1]'(by omega)) := List.getElem?_eq_getElem (by omega)
+  simp [spanOf, a, b, h1]
+
+/-- a sub-interval's span lies inside the interval's span -/
+theorem span_nest_idx (S : List TSpan) (hch : Chain S) (lo hi clo chi : Nat)
+    (h1 : lo ≤ clo) (h2 : clo < chi) (h3 : chi ≤ hi) (h4 : hi ≤ S.length) :
+    ∃ p s, spanOf S lo hi = some p ∧ spanOf S clo chi = some s ∧ p.b ≤ s.b ∧ s.e ≤ p.e := by
+  refine ⟨_, _, spanOf_some S lo hi (by omega) h4, spanOf_some S clo chi h2 (by omega), ?_, ?_⟩
+  · exact chain_get_le_b S hch lo clo (by omega) (by omega) h1
+  · exact chain_get_le_e S hch (chi - 1) (hi - 1) (by omega) (by omega) (by omega)
+
+/-- the spans of two intervals that follow each other do not overlap -/
+theorem span_siblings_idx (S : List TSpan) (hch : Chain S) (a b c d : Nat)
+    (h1 : a < b) (h2 : b ≤ c) (h3 : c < d) (h4 : d ≤ S.length) :
+    ∃ s1 s2, spanOf S a b = some s1 ∧ spanOf S c d = some s2 ∧ s1.e ≤ s2.b := by
+  refine ⟨_, _, spanOf_some S a b h1 (by omega), spanOf_some S c d h3 h4, ?_⟩
+  exact (chain_get_lt S hch (b - 1) c (by omega) (by omega) (by omega)).2.1
+
+/-- what `childrenOrdered` says about each child and about each pair of children -/
+theorem childrenOrdered_mem (lo hi : Nat) (cs : List ITree) (h : childrenOrdered lo hi cs = true) :
+    lo ≤ hi ∧ ∀ c ∈ cs, lo ≤ c.lo ∧ c.lo < c.hi ∧ c.hi ≤ hi := by
+  induction cs generalizing lo with
+  | nil => simp [childrenOrdered] at h; exact ⟨h, by intro c hc; cases hc⟩
+  | cons x xs ih =>
+    simp only [childrenOrdered, Bool.and_eq_true, decide_eq_true_eq] at h
+    obtain ⟨⟨h1, h2⟩, h3⟩ := h
+    obtain ⟨h4, h5⟩ := ih x.hi h3
+    refine ⟨by omega, ?_⟩
+    intro c hc
+    rcases List.mem_cons.mp hc with rfl | hc
+    · exact ⟨h1, h2, h4⟩
+    · have := h5 c hc; exact ⟨by omega, this.2.1, this.2.2⟩
+
+theorem childrenOrdered_pair (lo hi : Nat) (pre mid post : List ITree) (c1 c2 : ITree)
+    (h : childrenOrdered lo hi (pre ++ c1 :: (mid ++ c2 :: post)) = true) : c1.hi ≤ c2.lo := by
+  induction pre generalizing lo with
+  | nil =>
+    simp only [List.nil_append, childrenOrdered, Bool.and_eq_true, decide_eq_true_eq] at h
+    have := (childrenOrdered_mem c1.hi hi (mid ++ c2 :: post) h.2).2 c2 (by simp)
+    exact this.1
+  | cons x xs ih =>
+    simp only [List.cons_append, childrenOrdered, Bool.and_eq_true] at h
+    exact ih x.hi h.2
+
+/-- the one-pass table holds `posFrom` of every offset -/
+theorem posScan_get (p : P) (s : Str) (k : Nat) (h : k ≤ s.length) : (posScan p s)[k]? = some (posFrom p s k) := by
+  induction s generalizing p k with
+  | nil => simp at h; subst h; simp [posScan, posFrom]
+  | cons c cs ih =>
+    cases k with
+    | zero => simp [posScan, posFrom]
+    | succ k => simp only [posScan, List.getElem?_cons_succ, posFrom]; exact ih (advance p c) k (by simpa using h)
 
 end Tranp.Hull
